@@ -1128,6 +1128,73 @@ func genSelectorCase(r *hx.Rand, run *hx.Run, maxN int, tie bool) []string {
 	return script
 }
 
+// genAlmostUniformCase: all shards but one have the same weight, so that exactly one removal (or
+// the addition of the odd shard to the uniform rest) switches between "all weights equal" and
+// "weights differ". Object hashes are searched on which two of the equal-weight shards tie on the
+// quantised score while the odd shard scores lower: such objects are not on the odd shard, so
+// removing or adding it must not move them.
+func genAlmostUniformCase(r *hx.Rand, run *hx.Run, maxN int) []string {
+	n := r.Range(3, maxN)
+	if maxN < 3 {
+		n = 3
+	}
+	ss := genShards(r, n)
+	w := weightsOfInterest[r.Intn(len(weightsOfInterest))]
+	odd := r.Intn(n)
+	oddW := pickWeight(r)
+	for oddW == w {
+		oddW = pickWeight(r)
+	}
+	var rest []shard
+	for i := range ss {
+		ss[i].w = w
+		if i == odd {
+			ss[i].w = oddW
+		} else {
+			rest = append(rest, ss[i])
+		}
+	}
+	run.Count(fmt.Sprintf("shards:%d", n))
+	run.Count("map:all-weights-equal-but-one")
+	var hs []uint64
+	for k := 0; k < 4; k++ {
+		found := false
+		for t := 0; t < 4 && !found; t++ {
+			h, ok := findTie(r, rest, 1<<19)
+			if ok {
+				var top uint64
+				for _, sh := range rest {
+					if sc := realScore(realSplitmix64(sh.kh^h), sh.w); sc > top {
+						top = sc
+					}
+				}
+				if realScore(realSplitmix64(ss[odd].kh^h), oddW) < top {
+					hs = append(hs, h)
+					found = true
+				}
+			}
+		}
+		if found {
+			run.Count("hash:tie-among-equal-weights-odd-shard-lower")
+		} else {
+			run.Count("hash:tie-search-gave-up")
+		}
+	}
+	hs = append(hs, genHashes(r, ss, 3, run)...)
+	script := []string{selLine(ss)}
+	for _, h := range hs {
+		script = append(script, fmt.Sprintf("getshard %d", h))
+	}
+	script = append(script, "#perm "+hashWords(hs), "#remove "+hashWords(hs))
+	// the other direction: the uniform rest, then the odd shard is added
+	script = append(script, selLine(rest))
+	for _, h := range hs {
+		script = append(script, fmt.Sprintf("getshard %d", h))
+	}
+	script = append(script, fmt.Sprintf("#add %d %s %s", r.Intn(len(rest)+1), ss[odd].tok(), hashWords(hs)))
+	return script
+}
+
 // genCtorCase: what the constructor rejects, and zero weights (model correspondence only).
 func genCtorCase(r *hx.Rand, run *hx.Run) []string {
 	ss := genShards(r, r.Range(1, 4))
@@ -1364,7 +1431,7 @@ func TestC12(t *testing.T) {
 	defer model.Close()
 	run.HasModel = model != nil
 	run.SetRule("shard maps of 1..5 shards (weights 1, 2, 2^32-1, random), object hashes aimed at the boundaries of the fixed point score " +
-		"(by inverting splitmix64), exact score ties, every permutation / removal / one addition per map; composites over recording " +
+		"(by inverting splitmix64), exact score ties, maps whose weights are all equal but one, every permutation / removal / one addition per map; composites over recording " +
 		"backends with scripted FindMissing/Get/Put faults, sibling digests sharing their leading 8 hash bytes and cousin digests sharing only 1..7; " +
 		"a case is non-trivial when it exercises permutation/removal/addition on >= 2 shards or an operation of the composite; distinct by script hash")
 	permN := run.Scale(4, 5)
@@ -1378,8 +1445,22 @@ func TestC12(t *testing.T) {
 	}
 	run.Extra("splitmix64_inverse_matches_repo", invOK)
 
+	// The search stops after 20 oracle hits. Disagreements with the model do not stop it (an
+	// oracle hit, i.e. a concrete failing input, is what is looked for); only the first three
+	// disagreeing cases are shrunk and reported.
+	oracleHits, disagreeing := 0, 0
+	enough := func() bool { return oracleHits >= 20 }
 	handle := func(name string, script []string) {
 		what, agree, found := runCase(run, model, name, script, permLimit, true)
+		if what != "" {
+			oracleHits++
+		} else if !agree {
+			disagreeing++
+			if disagreeing > 3 {
+				run.Count("disagreeing-cases-beyond-the-first-three")
+				return
+			}
+		}
 		if what != "" || !agree {
 			small := hx.Shrink(script, 0, func(s []string) bool {
 				w, a, _ := runCase(run, model, name, s, permLimit, false)
@@ -1436,12 +1517,12 @@ func TestC12(t *testing.T) {
 	run.CountN("leaf:boundary-values", len(boundary))
 	run.CountN("leaf:random-values", len(xs)-len(boundary))
 	for i, s := range leafScripts(r0, xs) {
-		if run.Findings() >= 20 {
+		if enough() {
 			break
 		}
 		handle(fmt.Sprintf("seed%d/leaf%d", run.Seed, i), s)
 	}
-	for i := 0; i*64 < len(boundary) && run.Findings() < 20; i++ {
+	for i := 0; i*64 < len(boundary) && !enough(); i++ {
 		hi := (i + 1) * 64
 		if hi > len(boundary) {
 			hi = len(boundary)
@@ -1451,22 +1532,26 @@ func TestC12(t *testing.T) {
 
 	// 2. selector: permutation, removal, addition
 	n := run.Scale(1500, 12000)
-	for i := 0; i < n && run.Findings() < 20; i++ {
+	for i := 0; i < n && !enough(); i++ {
 		r := hx.NewRand(run.Seed, "C12-sel", i)
 		handle(fmt.Sprintf("seed%d/sel%d", run.Seed, i), genSelectorCase(r, run, permN, i%5 == 0))
 	}
-	for i := 0; i < run.Scale(40, 400) && run.Findings() < 20; i++ {
+	for i := 0; i < run.Scale(150, 2000) && !enough(); i++ {
+		r := hx.NewRand(run.Seed, "C12-almost-uniform", i)
+		handle(fmt.Sprintf("seed%d/almostuniform%d", run.Seed, i), genAlmostUniformCase(r, run, permN))
+	}
+	for i := 0; i < run.Scale(40, 400) && !enough(); i++ {
 		handle(fmt.Sprintf("seed%d/ctor%d", run.Seed, i), genCtorCase(hx.NewRand(run.Seed, "C12-ctor", i), run))
 	}
 
 	// 3. the composite
 	n = run.Scale(4000, 60000)
-	for i := 0; i < n && run.Findings() < 20; i++ {
+	for i := 0; i < n && !enough(); i++ {
 		r := hx.NewRand(run.Seed, "C12-access", i)
 		handle(fmt.Sprintf("seed%d/access%d", run.Seed, i), genAccessCase(r, run, 5))
 	}
 	n = run.Scale(400, 6000)
-	for i := 0; i < n && run.Findings() < 20; i++ {
+	for i := 0; i < n && !enough(); i++ {
 		r := hx.NewRand(run.Seed, "C12-prefix", i)
 		handle(fmt.Sprintf("seed%d/prefix%d", run.Seed, i), genPrefixFamilyCase(r, run, 5))
 	}
